@@ -78,6 +78,9 @@ struct Gen {
       if (prop != "C04" && g.chance(prop == "C20" ? 0.14 : 0.07)) {   // a hand-built link (craft.cpp): block-size and mode patterns the encoder never produces, genuine 64-sample short blocks; noise audio with samples far outside +-1 (NaN samples are skipped by the integer oracle)
         static const long rates[] = {8000, 22050, 44100, 48000}; Recipe z; z.craft = 1; z.ch = (int)g.range(1, 3); z.rate = rates[g.below(4)]; z.seed = g.below(thorough ? 600 : 60); z.n = (int64_t)(20 + 30 * g.below(6)); z.ncomm = 1;
         auto lz = get_link(z); if (lz->ok && !lz->ref_err && lz->len > 0) { r = z; l = lz; } }
+      if ((prop == "C07" || prop == "C08" || prop == "C12" || prop == "C19" || prop == "C20" || prop == "C10") && g.chance(0.04)) {   // a page that spans more than a second of audio (long digital silence between two tones)
+        Recipe z; z.ch = 1; z.rate = g.chance(0.7) ? 44100 : 22050; z.q = 0.1 + 0.1 * (double)g.below(4); z.n = 90000 + 10000 * (int64_t)g.below(4); z.sig = 6; z.seed = g.below(thorough ? 50 : 6); z.ncomm = 1;
+        auto lz = get_link(z); if (lz->ok && !lz->ref_err) { r = z; l = lz; } }
       if (!l->ok || l->ref_err) continue;
       if (nl >= 3 && i > 0 && i + 1 < nl && g.chance(0.15)) { Recipe z = r; z.n = (int64_t)g.below(3); z.cut = z.trim = z.bs64 = 0; auto lz = get_link(z); if (lz->ok && !lz->ref_err) { r = z; l = lz; } }   // a zero/one/two-sample link between two others
       budget -= r.n * r.ch; if (budget < 2000) budget = 2000;
@@ -195,7 +198,8 @@ struct Gen {
       if (g.chance(0.04)) op("halfrate").set("flag", (int64_t)g.below(2));
       if (u < 0.25) { seek_op("", false); if (g.chance(0.7)) read_op(0, 2); }
       else if (u < 0.32) { op("pcm_seek").set("a", g.chance(0.5) ? sr.total : std::max<int64_t>(0, sr.total - (int64_t)g.below(300))); if (g.chance(0.5)) read_op(0, 3); }
-      else if (u < 0.42) { Rec &r = op("crosslap"); r.set("a", pick_pos()); if (g.chance(0.4)) r.set("hrb", (int64_t)g.below(2)); }
+      else if (u < 0.42) { Rec &r = op("crosslap"); r.set("a", pick_pos()); if (g.chance(0.4)) r.set("hrb", (int64_t)g.below(2));
+        if (g.chance(0.35)) r.set("bhist", 1).set("brd", (int64_t)(g.chance(0.5) ? g.range(0, 600) : g.range(600, 9000))); }   // the second handle got where it is by a lapped seek and reads, not by a plain seek
       else if (u < 0.45 && sr.nlinks > 1) { int l = (int)g.range(1, sr.nlinks - 1); op("pcm_seek").set("a", std::max<int64_t>(0, sr.start[l] - (int64_t)g.below(200))); read_op(0, 2); seek_op("_lap", g.chance(0.1)); }
       else if (u < 0.50) {   // a seek that fails once dumps the decode state and leaves the read cursor where it was; the lapped seek that follows has to find out where that is
         static const char *fk[] = {"SEEKFAIL", "SEEKFAIL", "EIO", "TELLFAIL"}; seek_op("", false); p.recs.back().set("fault", fmt("%s@%d", fk[g.below(4)], (int)g.below(6))); seek_op("_lap", false); }
